@@ -168,8 +168,10 @@ def tlc_parallel(module, cfg_text, batch_paths, procs=4, **kw):
     procs = min(procs, len(batch_paths))
     w = max(2, NCPU // procs)
 
+    extra_env = kw.pop('env', None) or {}
+
     def one(path):
-        return tlc(module, cfg_text, env={'VERIF_BATCH': path}, workers=w, **kw)
+        return tlc(module, cfg_text, env=dict(extra_env, VERIF_BATCH=path), workers=w, **kw)
     with ThreadPoolExecutor(procs) as ex:
         return list(ex.map(one, batch_paths))
 
